@@ -19,21 +19,26 @@ _pyint, _pyfloat, _pybool = builtins.int, builtins.float, builtins.bool
 # ----------------------------------------------------------------------------
 # dtypes
 # ----------------------------------------------------------------------------
-class _Abstract:
-    def __init__(self, name, kinds):
-        self.__name__ = name
-        self.kinds = kinds
+class _Abstract(type):
+    """np.integer, np.floating ...: abstract scalar types (usable in isinstance and issubdtype)"""
 
-    def __repr__(self):
-        return f"symx.{self.__name__}"
+    def __instancecheck__(cls, x):
+        return isinstance(x, getattr(_rnp, cls.__name__))
+
+    def __repr__(cls):
+        return f"symx.{cls.__name__}"
 
 
-generic = _Abstract("generic", "biufOSU")
-number = _Abstract("number", "iuf")
-integer = _Abstract("integer", "iu")
-signedinteger = _Abstract("signedinteger", "i")
-unsignedinteger = _Abstract("unsignedinteger", "u")
-floating = _Abstract("floating", "f")
+def _abstract(name, kinds):
+    return _Abstract(name, (), {"kinds": kinds})
+
+
+generic = _abstract("generic", "biufOSU")
+number = _abstract("number", "iuf")
+integer = _abstract("integer", "iu")
+signedinteger = _abstract("signedinteger", "i")
+unsignedinteger = _abstract("unsignedinteger", "u")
+floating = _abstract("floating", "f")
 
 
 class dtype:
@@ -121,6 +126,36 @@ intp = int64
 int_ = int64
 float_ = float64
 
+class _ScalarMeta(type):
+    """np.int8, np.float64 ... as *types*: usable in isinstance(), as constructors and as dtype specs"""
+
+    def __instancecheck__(cls, x):
+        return isinstance(x, cls._np)
+
+    def __call__(cls, x=0):
+        r = cast_scalar(x, cls._dt)
+        if isinstance(r, (_pybool, _pyint, _pyfloat)) and cls._dt.kind in "biuf":
+            return cls._np(r)
+        return r
+
+    def __repr__(cls):
+        return f"symx.{cls.__name__}"
+
+
+def _scalar_type(dt, npname=None):
+    return _ScalarMeta(dt.name, (), {"_dt": dt, "_np": getattr(_rnp, npname or dt.name), "kind": dt.kind,
+                                     "bits": dt.bits, "itemsize": dt.itemsize, "name": dt.name,
+                                     "range": staticmethod(dt.range)})
+
+
+SCALAR_TYPES = {
+    "bool_": _scalar_type(bool_, "bool_"), "int8": _scalar_type(int8), "int16": _scalar_type(int16),
+    "int32": _scalar_type(int32), "int64": _scalar_type(int64), "uint8": _scalar_type(uint8),
+    "uint16": _scalar_type(uint16), "uint32": _scalar_type(uint32), "uint64": _scalar_type(uint64),
+    "float32": _scalar_type(float32), "float64": _scalar_type(float64), "object_": _scalar_type(object_, "object_"),
+    "str_": _scalar_type(str_, "str_"), "bytes_": _scalar_type(bytes_, "bytes_"),
+}
+
 _ALIASES = {
     "bool": bool_, "?": bool_, "|b1": bool_, "b1": bool_,
     "int": int64, "int64": int64, "<i8": int64, "i8": int64,
@@ -143,7 +178,8 @@ class RecDtype:
 
     kind = "V"
 
-    def __init__(self, fields):
+    def __init__(self, fields, real=None):
+        self.real = real            # the original numpy dtype spec when known (keeps h5py vlen-string metadata)
         self.fields_ = [(n, d) for n, d in fields]
         self.names = tuple(n for n, _ in self.fields_)
         self.name = "record"
@@ -178,6 +214,8 @@ def as_dtype(d):
         return None
     if isinstance(d, (dtype, RecDtype)):
         return d
+    if isinstance(d, _ScalarMeta):
+        return d._dt
     if d is _pybool or d is builtins.bool:
         return bool_
     if d is _pyint:
@@ -206,16 +244,38 @@ def as_dtype(d):
             return str_ if "U" in d[:2] else bytes_
         raise ShimUnsupported(f"dtype string {d!r}")
     if isinstance(d, list) and builtins.all(isinstance(t, tuple) for t in d):
-        return RecDtype([(t[0], _field_dtype(t[1])) for t in d])
+        return RecDtype([(t[0], _field_dtype(t[1])) for t in d], real=_real_spec(d))
+    if isinstance(d, dict) and "names" in d and "formats" in d:
+        return RecDtype([(n, _field_dtype(f)) for n, f in zip(d["names"], d["formats"])], real=_real_spec(d))
     if isinstance(d, _rnp.dtype):
         if d.names:
-            return RecDtype([(n, _field_dtype(d.fields[n][0])) for n in d.names])
+            return RecDtype([(n, _field_dtype(d.fields[n][0])) for n in d.names], real=d)
         if d.kind in "OSU":
             return {"O": object_, "S": bytes_, "U": str_}[d.kind]
         return _ALIASES[d.name]
     if isinstance(d, type) and issubclass(d, _rnp.generic):
         return as_dtype(_rnp.dtype(d))
     raise ShimUnsupported(f"dtype {d!r}")
+
+
+def _real_spec(d):
+    """the same structured dtype spec with model scalar types mapped back to numpy names"""
+    def conv(t):
+        if isinstance(t, (dtype,)):
+            return t.name if t.kind in "biuf" else "O"
+        if isinstance(t, _ScalarMeta):
+            return t._dt.name
+        if t is _pyfloat or getattr(t, "__name__", "") == "float":
+            return "<f8"
+        if t is _pyint or getattr(t, "__name__", "") == "int":
+            return "<i8"
+        return t
+    try:
+        if isinstance(d, list):
+            return _rnp.dtype([(t[0], conv(t[1])) for t in d])
+        return _rnp.dtype({"names": list(d["names"]), "formats": [conv(f) for f in d["formats"]]})
+    except Exception:  # noqa: BLE001
+        return None
 
 
 def _field_dtype(t):
@@ -1048,6 +1108,8 @@ def from_real(a):
 
 def array(x, dtype=None, copy=True, ndmin=0):
     d = as_dtype(dtype)
+    if isinstance(d, RecDtype) and isinstance(x, (RecArray, list, _rnp.ndarray)) and not isinstance(x, tuple):
+        return _rec_from(x, d)
     if hasattr(x, "_symx_payload"):
         x = x._symx_payload
     elif hasattr(x, "__array__") and not isnd(x) and not isinstance(x, (_rnp.ndarray, _rnp.generic)):
@@ -1058,7 +1120,17 @@ def array(x, dtype=None, copy=True, ndmin=0):
         if isinstance(x, tuple):
             return RecScalar(list(d.names), [cast_scalar(v, d.field(n)) if d.field(n).kind in "iuf" else v
                                              for n, v in zip(d.names, x)], d)
-        raise ShimUnsupported("array() with record dtype from non-tuple")
+        if isinstance(x, _rnp.ndarray) and x.dtype.names:
+            x = from_real(x)
+        if isinstance(x, RecArray):
+            if tuple(x.names) != tuple(d.names):
+                raise ShimUnsupported("array() record dtype with different field names")
+            return x.astype(d)
+        if isinstance(x, list) and builtins.all(isinstance(r, (tuple, list)) and len(r) == len(d.names) for r in x):
+            cols = [[r[j] for r in x] for j in range(len(d.names))]
+            return fromarrays([ndarray(c, (len(c),), None) if c else ndarray([], (0,), d.field(n))
+                               for c, n in zip(cols, d.names)], dtype=d)
+        raise ShimUnsupported("array() with record dtype from this input")
     if isinstance(x, _rnp.ndarray):
         x = from_real(x)
         if isinstance(x, (RecArray, RecScalar)):
@@ -1084,8 +1156,22 @@ def array(x, dtype=None, copy=True, ndmin=0):
     return r
 
 
+def _rec_from(x, d):
+    if isinstance(x, _rnp.ndarray) and x.dtype.names:
+        x = from_real(x)
+    if isinstance(x, RecArray):
+        if tuple(x.names) != tuple(d.names):
+            raise ShimUnsupported("array() record dtype with different field names")
+        return x.astype(d)
+    if isinstance(x, list) and builtins.all(isinstance(r, (tuple, list)) and len(r) == len(d.names) for r in x):
+        cols = [[r[j] for r in x] for j in range(len(d.names))]
+        return fromarrays([ndarray(c, (len(c),), None) if c else ndarray([], (0,), d.field(n))
+                           for c, n in zip(cols, d.names)], dtype=d)
+    raise ShimUnsupported("array() with record dtype from this input")
+
+
 def asarray(x, dtype=None):
-    if isinstance(x, (RecArray, RecScalar)):
+    if isinstance(x, (RecArray, RecScalar)) and dtype is None:
         return x
     if isnd(x) and (dtype is None or as_dtype(dtype) is x.dtype):
         return x
